@@ -16,6 +16,22 @@ CHECKS = {
              "correspondence; minimal-polynomial irreducibility is checked on the implementation by the oracle only (not a theorem yet). "
              "All theorems closed under the global context (no axioms).",
         technique="Coq proof (induction over binary numbers / lists, kernel computation on the regenerated table) + model/implementation correspondence by vm_compute"),
+    "C13": dict(
+        text="Coq theorems: for every length L, coherence time ct > 0 (divisor or not) and coefficient list the expanded gain at position i is "
+             "the coefficient of block i/ct, hence constant within blocks; ceil(L/ct) blocks cover every position and the last is non-empty; "
+             "the output is h.x + n position by position over exact complex rationals with the length and batch size preserved and each batch item "
+             "using its own coefficients (also with supplied csi/noise). Over the reals, for every draw list: mean |h|^2 of Rayleigh is (m1+m2)/2 and of "
+             "Rician K/(K+1) + 2 los s mean(g1) + (m1+m2)/(2(K+1)), i.e. 1 for zero-mean unit draws; los^2/(2 s^2) = K; K=0 is Rayleigh; the noise "
+             "stage is C07's complex Gaussian stage on the faded signal. The model is evaluated by the kernel on _expand_coefficients output, on "
+             "forward(x, csi, noise) for integer data, on coefficients observed through x=1 (block heads, distinct neighbours), on Rician "
+             "coefficients under the same seed as K=0 and on the same-seed noise relations.",
+        design="6/C13",
+        note="Trusted: Coq kernel + vm_compute; hand-written models Chan/Fading.v (rationals), Chan/FadingR.v (Reals) tied by kernel-evaluated "
+             "checks on implementation output. Axioms (Coq standard library Reals) for the gain theorems: ClassicalDedekindReals.sig_not_dec, "
+             "sig_forall_dec, FunctionalExtensionality.functional_extensionality_dep; the structural theorems are closed. The law of torch.randn "
+             "is an assumption validated statistically (>= 2^20 blocks per case, 6.5-sigma bounds) on the implementation only; log-normal shadowing is "
+             "checked for structure only (the property asks unit mean-square gain of Rayleigh and Rician).",
+        technique="Coq proof (lists / Euclidean division; Reals algebra of sqrt) + kernel-evaluated correspondence on implementation output + statistical oracle for the sampler"),
     "C14": dict(
         text="Coq theorems for every n : N: the reflected Gray code n xor (n>>1) and the shift/xor loop inverting it are mutually inverse "
              "bijections, consecutive integers (and the 2^b wrap-around) map to words at Hamming distance one, the loop terminates; the "
